@@ -11,6 +11,8 @@ import (
 	"bytes"
 	"fmt"
 	"math"
+	"runtime"
+	"sync"
 	"unicode/utf8"
 
 	"github.com/WICG/webpackage/go/internal/cbor"
@@ -561,6 +563,7 @@ func run(r *mon.Run) {
 		}
 	}
 
+	concurrentEncoders(r)
 	// seeded random nested call sequences
 	nSeq := 10000
 	if r.Thorough {
@@ -581,6 +584,54 @@ func run(r *mon.Run) {
 			r.Distinct("seq|" + describe(seq))
 		}
 	}
+}
+
+// concurrentEncoders: several goroutines encode different values at the same time, each with its own Encoder.
+func concurrentEncoders(r *mon.Run) {
+	var wg sync.WaitGroup
+	var mu sync.Mutex
+	for gi := 0; gi < 8; gi++ {
+		wg.Add(1)
+		go func(gi int) {
+			defer wg.Done()
+			g := r.Rand("concurrent", gi+100*r.Shard)
+			for k := 0; k < 300; k++ {
+				seq := []*mitem{genItem(g, 3), genItem(g, 2)}
+				var want []byte
+				valid := true
+				for _, m := range seq {
+					b, e := ref(m)
+					if e != nil {
+						valid = false
+						break
+					}
+					want = append(want, b...)
+				}
+				if !valid {
+					continue
+				}
+				var buf bytes.Buffer
+				e := cbor.NewEncoder(&buf)
+				var err error
+				for _, m := range seq {
+					if err = emit(e, m); err != nil {
+						break
+					}
+					runtime.Gosched()
+				}
+				mu.Lock()
+				if err != nil || !bytes.Equal(buf.Bytes(), want) {
+					r.Eval("CONCURRENT-ENCODE-DIFFERS")
+					r.Violation(fmt.Sprintf("enc:concurrent:%s", mon.Short(want)), fmt.Sprintf("value encoded while other goroutines were encoding other values: got %s (err=%v), canonical encoding %s of %s", mon.Short(buf.Bytes()), err, mon.Short(want), describe(seq)), nil)
+				} else {
+					r.Eval("concurrent-encode-ok")
+				}
+				mu.Unlock()
+			}
+		}(gi)
+	}
+	wg.Wait()
+	r.Distinct("concurrent-encoders")
 }
 
 func genItem(g *mon.Rand, depth int) *mitem {
